@@ -791,13 +791,7 @@ var c02SmallAlphabet = []byte{0x00, 0x80, 0xc0, 0xff}
 
 // c02Mutations: every single-edit mutation of enc at the given positions (nil = all): delete, truncate, +-1 (every
 // length header +-1, type byte +-1), overwrite and insert with each alphabet byte, plus one appended byte.
-func c02Mutations(enc []byte, positions []int, alpha []byte, f func(kind string, pos int, m []byte)) {
-	if positions == nil {
-		positions = make([]int, len(enc))
-		for i := range positions {
-			positions[i] = i
-		}
-	}
+func c02Mutations(enc []byte, positions []int, alpha []byte, appends bool, f func(kind string, pos int, m []byte)) {
 	for _, i := range positions {
 		f("delete", i, append(append([]byte{}, enc[:i]...), enc[i+1:]...))
 		f("truncate", i, append([]byte{}, enc[:i]...))
@@ -815,8 +809,10 @@ func c02Mutations(enc []byte, positions []int, alpha []byte, f func(kind string,
 			f("insert", i, append(append(append([]byte{}, enc[:i]...), a), enc[i:]...))
 		}
 	}
-	for _, a := range alpha {
-		f("append", len(enc), append(append([]byte{}, enc...), a))
+	if appends {
+		for _, a := range alpha {
+			f("append", len(enc), append(append([]byte{}, enc...), a))
+		}
 	}
 }
 
@@ -837,6 +833,7 @@ func TestVerif_C02(t *testing.T) {
 			"reference encoder from the EIP definitions, decoded by UnmarshalBinary and as an RLP list element, compared field by field, re-marshalled, " +
 			"hashed (x/crypto keccak over the sidecar-free bytes), sized, rebuilt with NewTx, JSON round-tripped when the signature values are admissible; " +
 			"(mut) every single-edit mutation (delete / truncate / +-1 / overwrite+insert with 15 RLP tag bytes / append) of every byte of each " +
+			"[list path: 15-byte alphabet on the first 8 bytes = all headers, 4-byte alphabet 00 80 c0 ff on the element body] " +
 			"one-factor-at-a-time envelope (around the base point; thorough: around two base points), both as binary envelope and as encoding of a one-element transaction list; one-blob sidecar envelopes " +
 			"(131 kB) are mutated at all bytes outside the blob body with a 4-byte alphabet; (fixed) hand-made non-canonical wrappers. " +
 			"distinct = distinct accepted envelopes (by hash of bytes)")
@@ -927,21 +924,31 @@ func TestVerif_C02(t *testing.T) {
 			if j.path == "list" {
 				enc = c02AsListElem(env)
 			}
-			var positions []int
-			alpha := c02Alphabet
+			// Position classes: "head" = the first 8 bytes (list / string headers, type byte, payload header) and, for
+			// one-blob sidecars, "body" = everything outside the 131 kB blob (plus its first/last two bytes).
+			// binary path: every byte with the full alphabet (one-blob sidecars: small alphabet).
+			// list path: head with the full alphabet, the remaining bytes with the small alphabet (the element body goes
+			// through the same typed decoder as in the binary path).
+			var head, rest []int
+			blobStart, blobEnd := -1, -1
 			if j.f.Sidecar >= 3 {
-				// blob body = the run of 0x42 bytes; mutate everything outside it (and its first/last two bytes)
-				start := bytes.Index(enc, bytes.Repeat([]byte{0x42}, 64))
-				end := start + len(kzg4844.Blob{})
-				for i := 0; i < len(enc); i++ {
-					if i < start+2 || i >= end-2 {
-						positions = append(positions, i)
-					}
+				blobStart = bytes.Index(enc, bytes.Repeat([]byte{0x42}, 64))
+				blobEnd = blobStart + len(kzg4844.Blob{})
+			}
+			for i := 0; i < len(enc); i++ {
+				switch {
+				case i < 8:
+					head = append(head, i)
+				case blobStart < 0 || i < blobStart+2 || i >= blobEnd-2:
+					rest = append(rest, i)
 				}
-				alpha = c02SmallAlphabet
+			}
+			restAlpha := c02Alphabet
+			if j.path == "list" || j.f.Sidecar >= 3 {
+				restAlpha = c02SmallAlphabet
 			}
 			serial, lastKey := 0, ""
-			c02Mutations(enc, positions, alpha, func(kind string, pos int, m []byte) {
+			emit := func(kind string, pos int, m []byte) {
 				if key := fmt.Sprint(kind, pos); key != lastKey {
 					serial, lastKey = 0, key
 				} else {
@@ -956,7 +963,9 @@ func TestVerif_C02(t *testing.T) {
 					}
 					return c02List(st, m, tag)
 				})
-			})
+			}
+			c02Mutations(enc, head, c02Alphabet, true, emit)
+			c02Mutations(enc, rest, restAlpha, false, emit)
 			if ji%23 == 0 {
 				r.Sample(map[string]any{"part": "mut", "type": j.typ, "idx": j.idx, "path": j.path, "fields": j.f.String(), "base": c02Short(enc)})
 			}
